@@ -81,6 +81,7 @@ type ainterp struct {
 	cfg   *acfg
 	steps int
 	err   string
+	stubs map[*ssa.Function]func(args []av) av // abstract summaries replacing a callee
 }
 
 func (it *ainterp) fail(format string, a ...any) {
@@ -475,6 +476,9 @@ func (it *ainterp) doCall(c *ssa.Call, val func(ssa.Value) av, depth int) av {
 	var args []av
 	for _, a := range c.Call.Args {
 		args = append(args, val(a))
+	}
+	if st, ok := it.stubs[f]; ok {
+		return st(args)
 	}
 	res := it.call(f, args, depth+1)
 	if len(res) == 1 {
@@ -1011,8 +1015,9 @@ var relUniverse = func() []string {
 // relGroups enumerates the structures of n operand strings; for each, the structures of the
 // operands extended with one probe string. Structures are identified by their pairwise
 // (order, prefix) codes.
-var relPair = func() [][]uint8 {
-	u := relUniverse
+var relPair = buildRelPair(relUniverse)
+
+func buildRelPair(u []string) [][]uint8 {
 	m := make([][]uint8, len(u))
 	for i := range u {
 		m[i] = make([]uint8, len(u))
@@ -1036,7 +1041,7 @@ var relPair = func() [][]uint8 {
 		}
 	}
 	return m
-}()
+}
 
 func relGroups(n int, admit func(rep []string) bool) (groups []*relCfg, probes map[string][]*relCfg) {
 	probes = map[string][]*relCfg{}
@@ -1361,4 +1366,223 @@ func (it *ainterp) showScanRep(v av, kind string, c *relCfg) string {
 		}
 	}
 	return kind + "{" + strings.Join(parts, ",") + "}"
+}
+
+// ---------------- SCANALG ----------------
+//
+// The two combinators themselves: optimizeAndExpr / optimizeOrExpr, with the scan types of
+// the two operands given (optimizeExpr is replaced by an abstract summary returning them).
+// Every pair of scan kinds is evaluated over all operand structures, so the routing (which
+// helper, which argument in which role, which fall-back) is decided together with the
+// helpers it reaches.
+
+func init() {
+	register("SCANALG", "the AND / OR combinators of the scan-range optimizer, evaluated for every pair of operand scan kinds (EMPTY, key set, prefix, range with either bound open, FULL) over the complete finite domain of operand structures: the combined scan contains every key both operands (AND) / either operand (OR) contain [sound, C02], and AND reads nothing when the operands share no key [tight, C18]; pairs of two key sets use Go maps and are outside the abstract interpreter", ruleScanAlg)
+}
+
+func ruleScanAlg(p *Prog, r *Result) {
+	sc, missing := p.scanConsts()
+	if len(missing) > 0 {
+		r.undecided("anchor: scan kind constants %v not found", missing)
+		return
+	}
+	opt := p.MethodByName("FilterOptimizer", "optimizeExpr")
+	if opt == nil {
+		r.undecided("anchor: (*FilterOptimizer).optimizeExpr not found")
+		return
+	}
+	recv := av{k: akPtr, obj: &aobj{elems: []av{{k: akUnknown}, {k: akUnknown}, {k: akUnknown}}}, off: -1}
+	type shape struct {
+		kind  string
+		nsym  int
+		masks [][]bool
+	}
+	shapes := []shape{
+		{"EMPTY", 0, [][]bool{{}}},
+		{"FULL", 0, [][]bool{{}}},
+		{"MGET", 1, [][]bool{{false}}},
+		{"PREFIX", 1, [][]bool{{false}}},
+		{"RANGE", 2, [][]bool{{false, false}, {true, false}, {false, true}}},
+	}
+	total := 0
+	for _, comb := range []struct{ fn, mode string }{{"optimizeAndExpr", "and"}, {"optimizeOrExpr", "or"}} {
+		fn := p.MethodByName("FilterOptimizer", comb.fn)
+		if fn == nil {
+			r.undecided("anchor: (*FilterOptimizer).%s not found", comb.fn)
+			continue
+		}
+		var unsound, loose, errs []string
+		n := 0
+		pairs := 0
+		for _, ls := range shapes {
+			for _, rs := range shapes {
+				if ls.kind == "MGET" && rs.kind == "MGET" {
+					continue // intersectionMget / unionMget build Go maps: not interpretable (stated in the rule text)
+				}
+				pairs++
+				nsym := ls.nsym + rs.nsym
+				for _, lm := range ls.masks {
+					for _, rm := range rs.masks {
+						mask := append(append([]bool{}, lm...), rm...)
+						admit := func(rep []string) bool {
+							for i := range rep {
+								if mask[i] && rep[i] != "" {
+									return false
+								}
+							}
+							chk := func(off int, sh shape) bool {
+								if sh.kind != "RANGE" {
+									return true
+								}
+								s, e := off, off+1
+								if !mask[s] && !mask[e] && rep[s] > rep[e] {
+									return false
+								}
+								if mask[s] != mask[e] {
+									if (!mask[s] && rep[s] == "") || (!mask[e] && rep[e] == "") {
+										return false
+									}
+								}
+								return true
+							}
+							return chk(0, ls) && chk(ls.nsym, rs)
+						}
+						groups, probes := relGroupsU(nsym, admit, nsym >= 4)
+						for _, g := range groups {
+							n++
+							it := &ainterp{p: p, cfg: &acfg{rank: g.rank, pfx: g.pfx}}
+							sym := func(i int) av {
+								if mask[i] {
+									return av{k: akBytes, isNil: true}
+								}
+								return av{k: akBytes, sym: i}
+							}
+							mk := func(off int, sh shape) av {
+								var ks []av
+								for i := 0; i < sh.nsym; i++ {
+									ks = append(ks, sym(off+i))
+								}
+								if sh.nsym == 0 {
+									v := p.newScan(sc, sh.kind, nil)
+									v.obj.elems[1] = av{k: akSlice, isNil: true}
+									return v
+								}
+								return p.newScan(sc, sh.kind, ks)
+							}
+							lv, rv := mk(0, ls), mk(ls.nsym, rs)
+							calls := 0
+							it.stubs = map[*ssa.Function]func([]av) av{opt: func([]av) av {
+								calls++
+								if calls == 1 {
+									return lv
+								}
+								return rv
+							}}
+							e := av{k: akPtr, obj: &aobj{elems: []av{{k: akUnknown}, {k: akUnknown}, {k: akUnknown}, {k: akUnknown}, {k: akUnknown}, {k: akUnknown}}}, off: -1}
+							res := it.call(fn, []av{recv, e}, 0)
+							names := []string{}
+							for i := 0; i < ls.nsym; i++ {
+								names = append(names, fmt.Sprintf("L%d", i))
+							}
+							for i := 0; i < rs.nsym; i++ {
+								names = append(names, fmt.Sprintf("R%d", i))
+							}
+							desc := fmt.Sprintf("%s x %s %s", ls.kind, rs.kind, showRel(names, g, mask))
+							if it.err != "" || len(res) != 1 || calls != 2 {
+								errs = append(errs, desc+": "+it.err)
+								continue
+							}
+							inOp := func(c *relCfg, off int, sh shape, k int) bool {
+								switch sh.kind {
+								case "EMPTY":
+									return false
+								case "FULL":
+									return true
+								case "MGET":
+									return c.rank[off] == c.rank[k]
+								case "PREFIX":
+									return c.pfx[off][k]
+								case "RANGE":
+									s, e := off, off+1
+									if !mask[s] && c.rank[s] > c.rank[k] {
+										return false
+									}
+									if !mask[e] && c.rank[k] > c.rank[e] {
+										return false
+									}
+									return true
+								}
+								return false
+							}
+							anyBoth := false
+							bad, extra := "", ""
+							ill := false
+							for _, pc := range probes[g.sig(nsym)] {
+								inL, inR := inOp(pc, 0, ls, nsym), inOp(pc, ls.nsym, rs, nsym)
+								inRes, ok := memberOfScan(pc, res[0], sc, nsym)
+								if !ok {
+									ill = true
+									break
+								}
+								want := inL && inR
+								if comb.mode == "or" {
+									want = inL || inR
+								}
+								if inL && inR {
+									anyBoth = true
+								}
+								if want && !inRes && bad == "" {
+									bad = fmt.Sprintf("key %q", pc.rep[nsym])
+								}
+								if inRes && extra == "" {
+									extra = fmt.Sprintf("key %q", pc.rep[nsym])
+								}
+							}
+							kind, _, _ := it.decodeScanKind(res[0], sc)
+							if ill {
+								errs = append(errs, desc+": result "+kind+" is ill-formed")
+								continue
+							}
+							if bad != "" {
+								unsound = append(unsound, fmt.Sprintf("%s -> %s loses %s", desc, it.showScanRep(res[0], kind, g), bad))
+							}
+							if comb.mode == "and" && !anyBoth && extra != "" {
+								loose = append(loose, fmt.Sprintf("%s -> %s reads %s although the operands share no key", desc, it.showScanRep(res[0], kind, g), extra))
+							}
+						}
+					}
+				}
+			}
+		}
+		total += n
+		sort.Strings(unsound)
+		sort.Strings(loose)
+		r.note(comb.fn+"_structures", n)
+		r.note(comb.fn+"_kind_pairs", pairs)
+		r.add(len(errs) == 0, comb.fn+"|interpretable", p.Pos(fn.Pos()), fmt.Sprintf("%d kind pairs, %d operand structures evaluated; %d outside the abstract domain %v", pairs, n, len(errs), head(errs, 2)))
+		r.add(len(unsound) == 0, comb.fn+"|sound", p.Pos(fn.Pos()), fmt.Sprintf("the combined scan contains every key of the %s of the operands in all %d structures; %d counter-structures %v", map[string]string{"and": "intersection", "or": "union"}[comb.mode], n, len(unsound), head(unsound, 3)))
+		if comb.mode == "and" {
+			r.add(len(loose) == 0, comb.fn+"|tight", p.Pos(fn.Pos()), fmt.Sprintf("nothing is read when the operands share no key, in all %d structures; %d counter-structures %v", n, len(loose), head(loose, 3)))
+		}
+	}
+	r.floor("operand structures evaluated", total, 300)
+}
+
+// relGroupsU: relGroups over the full universe, or over the short one (strings up to length 2,
+// enough for every weak order of five strings) when small is set.
+func relGroupsU(n int, admit func(rep []string) bool, small bool) ([]*relCfg, map[string][]*relCfg) {
+	if !small {
+		return relGroups(n, admit)
+	}
+	saveU, saveP := relUniverse, relPair
+	var u []string
+	for _, s := range saveU {
+		if len(s) <= 2 {
+			u = append(u, s)
+		}
+	}
+	relUniverse = u
+	relPair = buildRelPair(u)
+	defer func() { relUniverse, relPair = saveU, saveP }()
+	return relGroups(n, admit)
 }
